@@ -27,6 +27,7 @@ def extra(work, v, thorough):
 
 
 PLAN = {
+    "api": True,
     "mc": [("StoreMC_acct.cfg", False)],
     "sims": [],
     "drivers": [("TestVerif_StoreLoad", 40, 400, "store_load.ndjson", None),
